@@ -159,6 +159,34 @@ fn matrix(srv: &mut Srv, seed: u64, res: &mut CaseResult) -> R<()> {
         res.seen("byte_string_classes", label.clone());
         remembered.push((want, bytes));
     }
+    // content shared between frames (content-addressed: one file): removing or expiring one frame must not
+    // take the content away from the other
+    {
+        let b1 = format!("shared-by-two-frames-{}", seed).into_bytes();
+        let h1 = sha256_integrity(&b1);
+        let f1 = http::once(&sock, &Req::new("POST", "/shared.a").body(&b1), t).ok().and_then(|r| serde_json::from_slice::<Frame>(&r.body).ok());
+        let f2 = http::once(&sock, &Req::new("POST", "/shared.b").body(&b1), t).ok().and_then(|r| serde_json::from_slice::<Frame>(&r.body).ok());
+        if let (Some(f1), Some(_f2)) = (f1, f2) {
+            let _ = http::once(&sock, &Req::new("DELETE", &format!("/{}", f1.id)), t);
+            srv.call(json!({"op": "gc_drain"}))?;
+            let v = srv.call(json!({"op": "cas_read", "hash": h1}))?;
+            res.count("shared_content_checks", 1);
+            if v["b64"].as_str().map(crate::session::unb64) != Some(b1.clone()) {
+                res.find(&["C10"], "shared-content/lost-when-another-frame-with-the-same-content-was-removed", json!({"hash": h1, "reply": v.get("err")}));
+            }
+        }
+        let b2 = format!("shared-under-head-ttl-{}", seed).into_bytes();
+        let h2 = sha256_integrity(&b2);
+        for _ in 0..2 {
+            let _ = http::once(&sock, &Req::new("POST", "/shared.head?ttl=head:1").body(&b2), t);
+        }
+        srv.call(json!({"op": "gc_drain"}))?;
+        let v = srv.call(json!({"op": "cas_read", "hash": h2}))?;
+        res.count("shared_content_checks", 1);
+        if v["b64"].as_str().map(crate::session::unb64) != Some(b2.clone()) {
+            res.find(&["C10", "C09"], "shared-content/lost-when-an-older-frame-with-the-same-content-was-evicted", json!({"hash": h2, "reply": v.get("err")}));
+        }
+    }
     // script entry points: .append (string / binary / record) and return value in a command, handler return value, generator
     srv.must_append("w.define", ZERO_CONTEXT, Some(WRITER_CMD.as_bytes()), None, None)?;
     srv.must_append("hw.register", ZERO_CONTEXT, Some(WRITER_HANDLER.as_bytes()), None, None)?;
